@@ -272,6 +272,33 @@ def case_from_json(c):
     return c.get("family", "replay"), dims, (None if sh is None else tuple(sh))
 
 
+class _SerialPool:
+    """ThreadPool stand-in: the tasks handed to map run in order on the calling thread."""
+
+    def __init__(self, n=None):
+        self.n = n
+
+    def map(self, fn, it, chunksize=None):
+        items = list(it)
+        if chunksize is not None and chunksize <= 0:
+            return [None] * len(items)  # ThreadPool.map forms no task batch for a chunk size below 1 (probed in cv/frames/poolmon.py)
+        return [fn(x) for x in items]
+
+    def close(self):
+        pass
+
+    def terminate(self):
+        pass
+
+    def join(self):
+        pass
+
+
+class _SerialMP:
+    class pool:
+        ThreadPool = _SerialPool
+
+
 def do_case(fam, dims, shape, st, parts=("walk", "count")):
     from catii import ccube
 
@@ -341,15 +368,24 @@ def do_case(fam, dims, shape, st, parts=("walk", "count")):
         if not one_axis:
             # the evaluation mode is not part of the property: the same table with the sub-cubes handed to the thread pool
             # (the library switches to it by size; `parallel` is the cube's own switch) for every pool size up to the scaffold
-            for ps in (None, 1, 2, 3, 5):
-                def pooled():
-                    c = ccube(idx, **kw)
-                    c.parallel = True
-                    if ps is not None:
-                        c.poolsize = ps
-                    return c.count()
-                _try(pooled)
-                st.call(nrows > 0, cj)
+            # The pool is substituted by one that runs the tasks it is handed one after the other (with ThreadPool.map's
+            # treatment of chunksize): the contracts on _fill compare region snapshots and must not race; schedules are C16's.
+            import catii.ccubes as cc_mod
+
+            real_mp = cc_mod.multiprocessing
+            cc_mod.multiprocessing = _SerialMP
+            try:
+                for ps in (None, 1, 2, 3, 5):
+                    def pooled():
+                        c = ccube(idx, **kw)
+                        c.parallel = True
+                        if ps is not None:
+                            c.poolsize = ps
+                        return c.count()
+                    _try(pooled)
+                    st.call(nrows > 0, cj)
+            finally:
+                cc_mod.multiprocessing = real_mp
     st.cases += 1
 
 
